@@ -1,5 +1,7 @@
 SPECIFICATION Spec
 CONSTANT DevBfs = TRUE
+CONSTANT DevSel = "none"
+CONSTANT DevImg = "none"
 INVARIANT WindowLaws
 INVARIANT RingLaw
 CHECK_DEADLOCK FALSE
